@@ -212,6 +212,9 @@ class Evaluator:
             if op == "sub":
                 return a - b
             return UNSPEC
+        if isinstance(a, str) and isinstance(b, str) and op == "add":
+            self.flags.add("string-add")
+            return a + b        # accepted by the SQLAlchemy backends as concatenation
         if not (_is_num(a) and _is_num(b)):
             return UNSPEC
         if op == "add":
